@@ -40,6 +40,8 @@ def run(ctx):
     r319(ctx, core)
     r320(ctx)
     r322(ctx, core)
+    from . import c01 as _c01c
+    _c01c.r125(ctx, 'R3.25')
     from . import findings2 as _f2
     _f2.fixed_width_bytes(ctx, 'R3.23')
     _f2.delta_capacity(ctx, 'R3.24')
